@@ -221,3 +221,212 @@ class SimPool:
     def __exit__(self, *exc):
         self.terminate()
         return False
+
+
+# ----------------------------------------------------------------------------------------------
+# concurrent.futures.ThreadPoolExecutor / threading.Thread stand-ins, so that a refactoring of the
+# code under test to those APIs still runs under the scheduler (semantics: CPython 3.12).
+class SimFuture:
+    def __init__(self, sched):
+        self._sched = sched
+        self._state = "PENDING"  # PENDING | RUNNING | FINISHED | CANCELLED
+        self._result = None
+        self._exception = None
+        self._callbacks = []
+
+    def cancel(self):
+        if self._state in ("RUNNING", "FINISHED"):
+            return False
+        if self._state == "PENDING":
+            self._state = "CANCELLED"
+            self._run_callbacks()
+        return True
+
+    def cancelled(self):
+        return self._state == "CANCELLED"
+
+    def running(self):
+        return self._state == "RUNNING"
+
+    def done(self):
+        return self._state in ("FINISHED", "CANCELLED")
+
+    def _run_callbacks(self):
+        for cb in self._callbacks:
+            try:
+                cb(self)
+            except Exception:
+                pass
+
+    def add_done_callback(self, fn):
+        if self.done():
+            fn(self)
+        else:
+            self._callbacks.append(fn)
+
+    def _wait(self):
+        self._sched.wait(self.done, "future.wait")
+
+    def result(self, timeout=None):
+        self._wait()
+        if self._state == "CANCELLED":
+            import concurrent.futures as cf
+            raise cf.CancelledError()
+        if self._exception is not None:
+            raise self._exception
+        return self._result
+
+    def exception(self, timeout=None):
+        self._wait()
+        if self._state == "CANCELLED":
+            import concurrent.futures as cf
+            raise cf.CancelledError()
+        return self._exception
+
+
+class SimExecutor:
+    def __init__(self, max_workers=None, thread_name_prefix="", initializer=None, initargs=()):
+        sched = _CTX["sched"]
+        if sched is None:
+            raise RuntimeError("SimExecutor used outside a simulation")
+        if max_workers is None:
+            max_workers = 8
+        if max_workers <= 0:
+            raise ValueError("max_workers must be greater than 0")
+        self._sched = sched
+        self._max = max_workers
+        self._initializer, self._initargs = initializer, initargs
+        self._tasks = deque()
+        self._workers = []
+        self._busy = 0
+        self._shutdown = False
+        _CTX["pools"] += 1
+        self._no = _CTX["pools"]
+        _CTX["registry"].append(self)
+
+    def _worker(self):
+        sched = self._sched
+        if self._initializer is not None:
+            self._initializer(*self._initargs)
+        while True:
+            sched.wait(lambda: bool(self._tasks) or self._shutdown, "executor.get")
+            if not self._tasks:
+                return
+            fut, fn, args, kwargs = self._tasks.popleft()
+            if fut._state == "CANCELLED":
+                continue
+            fut._state = "RUNNING"
+            self._busy += 1
+            try:
+                fut._result = fn(*args, **kwargs)
+            except Exception as e:
+                fut._exception = e
+            self._busy -= 1
+            sched("executor.done", "", 0)
+            fut._state = "FINISHED"
+            fut._run_callbacks()
+
+    def submit(self, fn, /, *args, **kwargs):
+        if self._shutdown:
+            raise RuntimeError("cannot schedule new futures after shutdown")
+        fut = SimFuture(self._sched)
+        self._tasks.append((fut, fn, args, kwargs))
+        alive = len([w for w in self._workers if w.state != "D"])
+        if alive < min(self._max, self._busy + len(self._tasks)):
+            self._workers.append(self._sched.spawn("e%dw%d" % (self._no, len(self._workers)), self._worker))
+        return fut
+
+    def map(self, fn, *iterables, timeout=None, chunksize=1):
+        futs = [self.submit(fn, *args) for args in zip(*iterables)]
+
+        def gen():
+            try:
+                for f in futs:
+                    yield f.result()
+            finally:
+                for f in futs:
+                    f.cancel()
+        return gen()
+
+    def shutdown(self, wait=True, *, cancel_futures=False):
+        self._shutdown = True
+        if cancel_futures:
+            for (fut, fn, a, k) in list(self._tasks):
+                fut.cancel()
+        if wait:
+            self._sched.wait(lambda: all(w.state == "D" for w in self._workers), "executor.join")
+
+    def __enter__(self):
+        return self
+
+    def __exit__(self, *exc):
+        self.shutdown(wait=True)
+        return False
+
+
+def sim_as_completed(fs, timeout=None):
+    fs = list(fs)
+    sched = _CTX["sched"]
+    pending = list(fs)
+    while pending:
+        sched.wait(lambda: any(f.done() for f in pending), "futures.as_completed")
+        for f in list(pending):
+            if f.done():
+                pending.remove(f)
+                yield f
+
+
+def sim_wait(fs, timeout=None, return_when="ALL_COMPLETED"):
+    import collections
+    fs = list(fs)
+    sched = _CTX["sched"]
+    if return_when == "FIRST_COMPLETED":
+        sched.wait(lambda: any(f.done() for f in fs), "futures.wait")
+    elif return_when == "FIRST_EXCEPTION":
+        sched.wait(lambda: all(f.done() for f in fs) or any(f.done() and not f.cancelled() and f._exception is not None for f in fs),
+                   "futures.wait")
+    else:
+        sched.wait(lambda: all(f.done() for f in fs), "futures.wait")
+    R = collections.namedtuple("DoneAndNotDoneFutures", "done not_done")
+    return R({f for f in fs if f.done()}, {f for f in fs if not f.done()})
+
+
+class SimThread:
+    """threading.Thread stand-in: start() makes the target a scheduler actor."""
+    _count = 0
+
+    def __init__(self, group=None, target=None, name=None, args=(), kwargs=None, *, daemon=None):
+        SimThread._count += 1
+        self._target, self._args, self._kwargs = target, args, kwargs or {}
+        self.name = name or "SimThread-%d" % SimThread._count
+        self.daemon = bool(daemon)
+        self._actor = None
+        self.ident = None
+
+    def run(self):
+        if self._target is not None:
+            self._target(*self._args, **self._kwargs)
+
+    def start(self):
+        sched = _CTX["sched"]
+        if sched is None:
+            raise RuntimeError("SimThread used outside a simulation")
+        if self._actor is not None:
+            raise RuntimeError("threads can only be started once")
+        _CTX["threads"] = _CTX.get("threads", 0) + 1
+        self._actor = sched.spawn("t%d" % _CTX["threads"], self.run)
+        self.ident = 10_000 + _CTX["threads"]
+
+    def join(self, timeout=None):
+        if self._actor is None:
+            raise RuntimeError("cannot join thread before it is started")
+        _CTX["sched"].wait(lambda: self._actor.state == "D", "thread.join")
+
+    def is_alive(self):
+        return self._actor is not None and self._actor.state != "D"
+
+    def isDaemon(self):
+        return self.daemon
+
+    def setDaemon(self, d):
+        self.daemon = bool(d)
